@@ -47,6 +47,28 @@ Proof.
   rewrite E. destruct (forallb (file_ok style) (f :: files)); split; intros H; try reflexivity; discriminate.
 Qed.
 
+(* every dependency file of a command counts: the result is the CONJUNCTION over the files, and when all of them are
+   read and parsed without error the discovered set is the UNION (concatenation, in order) of what each file names *)
+Definition file_keys (style : deps_style) (cwd wd : bytes) (f : option bytes) : list bytes :=
+  match f with Some data => fst (process_one style cwd wd data) | None => [] end.
+
+Theorem glue_all_files_count : forall style cwd wd files,
+  style <> StyleUnused ->
+  snd (process_discovered style cwd wd files) = forallb (file_ok style) files /\
+  (forallb (file_ok style) files = true ->
+   fst (process_discovered style cwd wd files) = flat_map (file_keys style cwd wd) files).
+Proof.
+  intros style cwd wd files Hs.
+  assert (E : process_discovered style cwd wd files = process_files style cwd wd files) by (destruct style; [congruence | | |]; reflexivity).
+  rewrite E. split; [apply process_files_ok|]. clear E.
+  induction files as [|f files IH]; [reflexivity|].
+  destruct f as [data|]; [|discriminate].
+  cbn [forallb file_ok process_files flat_map file_keys]. intros H. apply andb_true_iff in H. destruct H as [H1 H2].
+  pose proof (process_one_ok style cwd wd data) as Ho. rewrite H1 in Ho.
+  destruct (process_one style cwd wd data) as [keys ok]. cbn [fst snd] in *. rewrite Ho.
+  specialize (IH H2). destruct (process_files style cwd wd files) as [keys2 ok2]. cbn [fst] in *. rewrite IH. reflexivity.
+Qed.
+
 Theorem glue_error_fails : forall style cwd wd files data,
   In (Some data) files -> file_has_error style data = true ->
   command_result style cwd wd files = CmdFailed.
@@ -292,6 +314,23 @@ Example glue_path_no_dot_folding :
   glue_path [47; 119] [47; 119; 47; 119; 100] [115; 117; 98; 47; 46; 47; 120] = [47; 119; 47; 119; 100; 47; 115; 117; 98; 47; 46; 47; 120] /\
   fst (process_discovered StyleDependencyInfo [47; 119] [47; 119; 47; 119; 100] [Some [0; 118; 0; 16; 46; 46; 47; 120; 0]])
     = [[47; 119; 47; 119; 100; 47; 46; 46; 47; 120]].
+Proof. vm_compute. repeat split; reflexivity. Qed.
+
+(* three dependency files [t: p], [t: q r], [t: s] (cwd [/w]): all four paths are keys; an unreadable file or a file
+   without colon in the first, the middle or the last position fails the command *)
+Example glue_three_files :
+  let f1 := Some [116; 58; 32; 112; 10] in let f2 := Some [116; 58; 32; 113; 32; 114; 10] in let f3 := Some [116; 58; 32; 115; 10] in
+  let bad := Some [116; 32; 112; 10] in
+  process_discovered StyleMakefile [47; 119] [] [f1; f2; f3] = ([[47; 119; 47; 112]; [47; 119; 47; 113]; [47; 119; 47; 114]; [47; 119; 47; 115]], true) /\
+  command_result StyleMakefile [47; 119] [] [f1; f2; f3] = CmdSucceeded /\
+  command_result StyleMakefile [47; 119] [] [bad; f2; f3] = CmdFailed /\
+  command_result StyleMakefile [47; 119] [] [f1; bad; f3] = CmdFailed /\
+  command_result StyleMakefile [47; 119] [] [f1; f2; bad] = CmdFailed /\
+  command_result StyleMakefile [47; 119] [] [None; f2; f3] = CmdFailed /\
+  command_result StyleMakefile [47; 119] [] [f1; None; f3] = CmdFailed /\
+  command_result StyleMakefile [47; 119] [] [f1; f2; None] = CmdFailed /\
+  command_result StyleDependencyInfo [47; 119] [] [Some [0; 118; 0; 16; 112; 0]; Some [0; 118; 0; 16; 113]; Some [0; 118; 0; 16; 114; 0]] = CmdFailed /\
+  process_discovered StyleDependencyInfo [47; 119] [] [Some [0; 118; 0; 16; 112; 0]; Some [0; 118; 0; 16; 113; 0]] = ([[47; 119; 47; 112]; [47; 119; 47; 113]], true).
 Proof. vm_compute. repeat split; reflexivity. Qed.
 
 (* ---------- non-vacuity ---------- *)
